@@ -41,7 +41,7 @@ func lockEnvelope(p *Path, mtxField string) ([]*Event, bool) {
 }
 
 func fieldStore(e *Event, base *T, field string) bool {
-	return e.Kind == EvStore && e.Addr.Op == "faddr" && e.Addr.Args[0] == base && FieldName(e.Addr.Aux) == field
+	return e.Kind == EvStore && e.Addr.Op == "faddr" && rootedAt(e.Addr, base) && FieldName(e.Addr.Aux) == field
 }
 
 // execStateMethods checks the selected methods of failsafe.(*execution) against their specification.
@@ -82,7 +82,7 @@ func execStateMethods(c *Ctx, which map[string]bool) {
 			c.Unresolved("failsafe.(*execution)."+name, "not found")
 			return nil, nil, "", "", false
 		}
-		ev := NewEvaluator(c.P, EvalConfig{Opaque: map[string]bool{helper: true}})
+		ev := NewEvaluator(c.P, EvalConfig{Opaque: map[string]bool{helper: true}, InlineClosures: true})
 		ps := ev.Run(fn)
 		if ev.Err != nil || len(ps) == 0 {
 			c.Undecided(c.fn(fn), c.P.FuncPos(fn), fmt.Sprintf("evaluation failed: %v", ev.Err), "")
@@ -670,7 +670,17 @@ func asyncResultRules(c *Ctx) {
 		rec := c.P.Func("failsafe.(*executionResult).record")
 		if rec != nil {
 			callers := ix.Callers[rec]
-			if len(callers) != 1 || !strings.HasPrefix(c.fn(callers[0]), "failsafe.(*executor).executeAsync$") {
+			// the one caller is the function executeAsync starts as a goroutine (closure or method)
+			var runner *ssa.Function
+			if ea := c.P.Func("failsafe.(*executor).executeAsync"); ea != nil {
+				ev := NewEvaluator(c.P, EvalConfig{})
+				for _, p := range ev.Run(ea) {
+					for _, g := range eventsWhere(p, func(x *Event) bool { return x.Kind == EvGo }) {
+						runner = ev.EventFn(g)
+					}
+				}
+			}
+			if len(callers) != 1 || runner == nil || callers[0] != runner {
 				var ns []string
 				for _, x := range callers {
 					ns = append(ns, c.fn(x))
@@ -864,12 +874,12 @@ func executeAsyncRule(c *Ctx) {
 		}
 		// runner
 		g := gos[0]
-		if g.FnTerm == nil || g.Snap == nil {
+		if ev.EventFn(g) == nil || g.Snap == nil {
 			okRun = false
 			c.Undecided(name+"#runner", pos, "runner goroutine not resolvable", "")
 			continue
 		}
-		for _, q := range ev.CallTerm(g.Snap, g.FnTerm, nil) {
+		for _, q := range ev.RunEvent(g.Snap, g, nil) {
 			evs := impure(q)
 			var own []*Event
 			for _, x := range evs {
@@ -880,20 +890,20 @@ func executeAsyncRule(c *Ctx) {
 			if q.Exit != ExitReturn || len(own) != 2 || !isCall(own[0], "execute") || own[0].Args[1] != exec || own[0].Args[0] != ev.Param(fn, "fn") ||
 				!isCall(own[1], "record") || own[1].Recv != r || own[1].Args[0] != own[0].Res[0] {
 				okRun = false
-				c.Fail(name+"#runner", c.P.FuncPos(g.FnTerm.Fn), "the runner must be exactly result.record(e.execute(fn, exec, withExec)): the same execute path as sync, its value recorded once as the goroutine's last action", pathTrace(ev, q))
+				c.Fail(name+"#runner", c.P.FuncPos(ev.EventFn(g)), "the runner must be exactly result.record(e.execute(fn, exec, withExec)): the same execute path as sync, its value recorded once as the goroutine's last action", pathTrace(ev, q))
 			}
 		}
 	}
 	// the shared executor is never modified by running an execution: its context and policies are written only
 	// when it is built (NewExecutor) or copied (WithContext)
 	ix := BuildIndex(c.P)
-	for field, allowed := range map[string]map[string]bool{
-		"ctx":      {"failsafe.NewExecutor": true, "failsafe.(*executor).WithContext": true},
-		"policies": {"failsafe.NewExecutor": true},
+	for field, allowed := range map[string][]string{
+		"ctx":      {"failsafe.NewExecutor", "failsafe.(*executor).WithContext"},
+		"policies": {"failsafe.NewExecutor"},
 	} {
 		good := true
 		for _, w := range ix.Writers(FieldRef{Type: "executor", Pkg: "failsafe", Field: field}) {
-			if !allowed[c.fn(w)] {
+			if !ix.WithinNames(w, allowed...) {
 				good = false
 				c.Fail("failsafe.executor."+field+"#writers", c.P.FuncPos(w), "the shared executor's "+field+" is written by "+c.fn(w)+": executions started from one executor must not affect each other (a per-execution context written back into the executor makes later executions children of an earlier one, so cancelling one cancels the others)", "")
 			}
